@@ -520,7 +520,31 @@ func single(res *vc.UnitResult, i int, dir string, opt Options, prev Status) Sta
 		for _, mt := range all {
 			terms = append(terms, mt.Term)
 		}
-		if vals, err := Values(file, terms); err == nil {
+		// minimise: a replay must not have to allocate a 2^40-byte payload. The query is re-solved with every 64-bit input
+		// bounded (as a signed value) by 2^8, then 2^16, then 2^24; the first bound that keeps it satisfiable is used.
+		var sized []string
+		for _, mt := range all {
+			if mt.Entry && mt.Sort == "(_ BitVec 64)" {
+				sized = append(sized, mt.Term)
+			}
+		}
+		vals, err := map[string]string(nil), fmt.Errorf("not tried")
+		if len(sized) > 0 {
+			for _, bound := range []uint64{1 << 8, 1 << 16, 1 << 24} {
+				var sb strings.Builder
+				for _, t := range sized {
+					fmt.Fprintf(&sb, "(assert (and (bvsle (bvneg #x%016x) %s) (bvsle %s #x%016x)))\n", bound, t, t, bound)
+				}
+				if v, e := valuesWith(file, terms, sb.String()); e == nil {
+					vals, err = v, nil
+					break
+				}
+			}
+		}
+		if err != nil {
+			vals, err = Values(file, terms)
+		}
+		if err == nil {
 			var sb strings.Builder
 			for _, mt := range all {
 				if v, ok := vals[mt.Term]; ok {
@@ -563,9 +587,22 @@ func Model(file string, terms []string) string {
 
 // Values evaluates terms in a model of the file (used for counterexample reports and replay drivers).
 func Values(file string, terms []string) (map[string]string, error) {
+	return valuesWith(file, terms, "")
+}
+
+// valuesWith is Values with extra assertions inserted before the (check-sat) of the file.
+func valuesWith(file string, terms []string, extra string) (map[string]string, error) {
 	data, err := os.ReadFile(file)
 	if err != nil {
 		return nil, err
+	}
+	if extra != "" {
+		s := string(data)
+		i := strings.LastIndex(s, "(check-sat)")
+		if i < 0 {
+			return nil, fmt.Errorf("no check-sat")
+		}
+		data = []byte(s[:i] + extra + s[i:])
 	}
 	var sb strings.Builder
 	sb.Write(data)
